@@ -167,7 +167,7 @@ def harness(ctx, exe, step_bytes_expected=None):
     # checkpoints: [after keygen] then (after sign, after verify) * K ...
     sign_cp = gl[1:1 + 2 * K:2]
     if len(sign_cp) >= 3 and sign_cp[-1] > sign_cp[-2] > sign_cp[-3]:
-        ctx.violation(K_GMP_SIGN, "GMP integers allocated during protocols_sign are never cleared: +%d live GMP blocks per signature on the same objects (one site: quat_left_ideal_init(&lideal_aux_resp_com) called a second time where finalize was meant, 15 of the 28 blocks at level 1; the rest is below protocols_sign)"
+        ctx.violation(K_GMP_SIGN, "GMP integers allocated below protocols_sign are never cleared: +%d live GMP blocks per signature on the same objects (after fix 32f0c08: 13 at level 1 — ibz_t tmp in endomorphism_application_even_basis, disc in sampling_random_ideal_O0, two_pow re-initialised in id2iso_kernel_dlogs_to_ideal_two, prod_bad_primes in find_uv; repair: notes/patches/C19-fix-gmp-finalize.diff)"
                       % (sign_cp[-1] - sign_cp[-2]), dict(ops=ops, gmp_live_blocks_after_each_sign=sign_cp))
     ctx.coverage["gmp_live_blocks_after_each_sign"] = sign_cp
 
